@@ -154,80 +154,241 @@ Qed.
    Unary(prime) .flatten, after the cells appended to the caller's list are
    evaluated, have the value of the composed circuits; the buffer returned by
    Comparator.flatten evaluates to the integer comparison. *)
-From Omega Require Import L2Compile.Thread L2Compile.ThreadProofs.
-From OmegaGP Require Import BitvectorFlatBridge.
+From Omega Require Import L1Circuits.PyStr L2Compile.Thread L2Compile.ThreadProofs
+  L2Compile.Leaf L2Compile.LeafProofs.
+From OmegaGP Require Import BitvectorLeafBridge BitvectorFlatBridge.
 
 Section FlattenCorrect.
-Variable kwargs : Type.
-Variable kw_set_prime : kwargs -> kwargs.
-Variable ext_flatten : pnode -> option (list bx) -> kwargs
-                       -> option (fres * option (list bx)).
+Variable defs : Type.
+Variable defs_mem : defs -> string -> bool.
+Variable var_id : string -> nat.
+Variable ext_flatten def_flatten : pnode -> option (list bx) -> kwargs defs
+                                   -> option (fres * option (list bx)).
 Variable vars : nat -> bool.
 
+Notation flat := (g_flatten defs defs_mem var_id ext_flatten def_flatten).
+Notation lok := (leaves_ok defs defs_mem var_id ext_flatten def_flatten).
+
 Theorem translated_flatten_threads_memory : forall e fuel kw mem r st,
-  leaves_ok kwargs kw_set_prime ext_flatten e kw -> awf e = true ->
-  g_flatten kwargs kw_set_prime ext_flatten fuel (node_of e) (Some mem) kw = Some (r, st) ->
+  lok e kw -> awf e = true ->
+  flat fuel (node_of e) (Some mem) kw = Some (r, st) ->
   exists bits mem', r = RBits bits /\ st = Some mem' /\
     (exists k, extends (run vars [] mem) (run vars [] mem') k) /\
     Forall2 (stable vars (run vars [] mem')) bits (aval vars e).
 Proof.
   intros e fuel kw mem r st L W H.
-  destruct (flatten_is_threading_model _ _ _ e fuel kw mem r st L H) as [-> ->].
+  destruct (flatten_is_threading_model _ _ _ _ _ e fuel kw mem r st L H) as [-> ->].
   pose proof (thread_sound vars e mem W) as T.
   destruct (d_aflat e mem) as [bits mem']. cbv zeta in T. cbn [fst snd].
   exists bits, mem'. tauto.
 Qed.
 
 Theorem translated_comparator_flatten_correct : forall op a b fuel kw r st,
-  leaves_ok kwargs kw_set_prime ext_flatten a kw ->
-  leaves_ok kwargs kw_set_prime ext_flatten b kw ->
-  awf a = true -> awf b = true ->
-  g_flatten kwargs kw_set_prime ext_flatten fuel
-    (PNode "Comparator" op [node_of a; node_of b]) None kw = Some (r, st) ->
+  lok a kw -> lok b kw -> awf a = true -> awf b = true ->
+  flat fuel (PNode "Comparator" op [node_of a; node_of b]) None kw = Some (r, st) ->
   exists o buf, cmp_of_string op = Some o /\ r = RBuf buf /\ st = None /\
     buf_value vars buf = Some (sem_cmp o (sval (aval vars a)) (sval (aval vars b))).
 Proof.
   intros op a b fuel kw r st La Lb Wa Wb H.
-  destruct (comparator_flatten_is_model _ _ _ op a b fuel kw r st La Lb H) as (o & Ho & -> & ->).
+  destruct (comparator_flatten_is_model _ _ _ _ _ op a b fuel kw r st La Lb H) as (o & Ho & -> & ->).
   exists o. eexists. split; [exact Ho|]. split; [reflexivity|]. split; [reflexivity|].
   apply (cmp_flat_exact vars o a b Wa Wb).
 Qed.
-End FlattenCorrect.
 
-(* non-vacuity: a concrete environment (kwargs = the prime flag; variables
-   "x" and "y" of 2 bits; numerals) on which the translated methods run *)
-Definition ex_ext (u : pnode) (mem : option (list bx)) (prime : bool)
-  : option (fres * option (list bx)) :=
-  match u with
-  | PNode "Var" "x" [] => Some (RBits (if prime then [XV 10; XV 11] else [XV 0; XV 1]), mem)
-  | PNode "Var" "y" [] => Some (RBits (if prime then [XV 12; XV 13] else [XV 2; XV 3]), mem)
-  | PNode "Var" "b" [] => Some (RStr (XV (if prime then 14 else 4)), mem)
-  | PNode "Num" "1" [] => Some (RBits [XC true; XC false], mem)
-  | _ => None
-  end%string.
+(* ------------------------------------------------------------------------
+   End to end for quantifier-free arithmetic comparisons over declared
+   integer variables and numerals (Leaf.qexp): no external flatten function
+   is left -- [ext_flatten] and [def_flatten] are arbitrary and never
+   consulted.  [t] is the symbol table passed as t=..., no definitions are
+   in scope, [env] gives the integer value of every (primed) variable and
+   the bit assignment [vars] encodes it. *)
+Variable t : PyStr.table.
+Variable env : string -> bool -> Z.
 
-Definition ex_lhs : anode :=
-  AArith AMul "*"
-    (AIte (PNode "Var" "b" []) (XV 4)
-       (ALeaf (PNode "Var" "x" []) [XV 0; XV 1])
-       (APrime "'" (ALeaf (PNode "Var" "y" []) [XV 12; XV 13])))
-    (AArith ADiv "/" (ALeaf (PNode "Var" "x" []) [XV 0; XV 1])
-                     (ALeaf (PNode "Num" "1" []) [XC true; XC false])).
-Definition ex_rhs : anode := ALeaf (PNode "Var" "y" []) [XV 2; XV 3].
+Definition encodes : Prop :=
+  forall name prime bits, d_var_flatten var_id t name prime = Some (RBits bits) ->
+    sval (map (evalx vars []) bits) = env name prime.
 
-Example translated_flatten_nonvacuous :
-  leaves_ok bool (fun _ => true) ex_ext ex_lhs false /\
-  leaves_ok bool (fun _ => true) ex_ext ex_rhs false /\
-  awf ex_lhs = true /\ awf ex_rhs = true /\
-  exists buf, g_flatten bool (fun _ => true) ex_ext 60
-    (PNode "Comparator" "<=" [node_of ex_lhs; node_of ex_rhs]) None false
-    = Some (RBuf buf, None).
+Lemma token_reg_free : forall s b, py_token var_id s = Some b -> reg_free b = true.
 Proof.
-  split; [|split; [|split; [|split]]].
-  - cbn [leaves_ok ex_lhs]. repeat apply conj; try reflexivity; try (now right);
-      try (intros mem; reflexivity). eexists. reflexivity.
-  - cbn [leaves_ok ex_rhs]. split; [reflexivity|intros mem; reflexivity].
-  - reflexivity.
-  - reflexivity.
-  - vm_compute. eexists. reflexivity.
+  intros s b H. unfold py_token in H.
+  destruct (String.eqb s "" || has_blank s)%bool; [discriminate|].
+  destruct (String.eqb s "0"); [now injection H as <-|].
+  destruct (String.eqb s "1"); now injection H as <-.
 Qed.
+
+Lemma tokens_reg_free : forall l bs, py_mapM (py_token var_id) l = Some bs ->
+  forallb reg_free bs = true /\ length bs = length l.
+Proof.
+  induction l as [|a l IH]; intros bs H; cbn [py_mapM] in H.
+  - injection H as <-. auto.
+  - destruct (py_token var_id a) eqn:E; [|discriminate].
+    destruct (py_mapM (py_token var_id) l) eqn:E2; [|discriminate]. injection H as <-.
+    destruct (IH _ eq_refl) as [F L]. cbn [forallb length].
+    rewrite (token_reg_free _ _ E), F, L. auto.
+Qed.
+
+Lemma mapM_length : forall A B (f : A -> option B) l r, py_mapM f l = Some r -> length r = length l.
+Proof.
+  induction l as [|a l IH]; intros r H; cbn [py_mapM] in H.
+  - now injection H as <-.
+  - destruct (f a); [|discriminate]. destruct (py_mapM f l) eqn:E; [|discriminate].
+    injection H as <-. cbn [length]. now rewrite (IH _ eq_refl).
+Qed.
+
+Lemma var_names_width : forall h ns, var_names h = Some ns -> (2 <= length ns)%nat.
+Proof.
+  intros h ns H. unfold var_names, check_width in H.
+  destruct (String.eqb (h_type h) "bool"); [discriminate|].
+  destruct (h_bitnames h) as [bits|]; [|discriminate].
+  destruct (h_signed h) as [[|]|]; [| |discriminate].
+  - destruct (Nat.leb_spec 2 (length bits)); [|discriminate]. now injection H as <-.
+  - destruct (h_dom h) as [[lo hi]|]; [|discriminate].
+    destruct (lo * hi >=? 0); [|discriminate].
+    destruct (lo >=? 0); [|destruct (hi <? 0); [|discriminate]];
+      match type of H with (if (2 <=? ?n)%nat then _ else _) = _ =>
+        destruct (Nat.leb_spec 2 n); [|discriminate] end; now injection H as <-.
+Qed.
+
+(* the bits of a variable leaf: formulas without registers, at least 2 *)
+Lemma var_bits_wf : forall name prime bits,
+  d_var_flatten var_id t name prime = Some (RBits bits) ->
+  forallb reg_free bits = true /\ (2 <= length bits)%nat.
+Proof.
+  intros name prime bits H. unfold d_var_flatten in H.
+  destruct (is_bool_var t name) as [[|]|]; [| |discriminate].
+  - destruct (py_token var_id _); discriminate.
+  - destruct (dict_get t name) as [h|]; [|discriminate].
+    destruct (var_names h) as [ns|] eqn:N; [|discriminate].
+    destruct (py_mapM (prime_name prime) ns) as [ps|] eqn:P; [|discriminate].
+    destruct (py_mapM (py_token var_id) ps) as [bs|] eqn:T; [|discriminate].
+    injection H as <-. destruct (tokens_reg_free _ _ T) as [F L]. split; [exact F|].
+    rewrite L, (mapM_length _ _ _ _ _ P). eapply var_names_width; eassumption.
+Qed.
+
+Lemma q_anode_node : forall e prime a, q_anode var_id t prime e = Some a -> node_of a = qnode e.
+Proof.
+  induction e as [v|n|op e IH|o op e1 IH1 e2 IH2]; intros prime a H; cbn [q_anode] in H.
+  - destruct (py_int v); [|discriminate]. now injection H as <-.
+  - destruct (d_var_flatten var_id t n prime) as [[b|bits|f|p]|]; try discriminate.
+    now injection H as <-.
+  - destruct (String.eqb op "X" || String.eqb op "'")%bool; [|discriminate].
+    destruct (q_anode var_id t true e) as [a'|] eqn:E; [|discriminate]. injection H as <-.
+    cbn [node_of qnode]. now rewrite (IH _ _ E).
+  - destruct (aop_of_string op); [|discriminate].
+    destruct (q_anode var_id t prime e1) as [a1|] eqn:E1; [|discriminate].
+    destruct (q_anode var_id t prime e2) as [a2|] eqn:E2; [|discriminate].
+    match type of H with (if ?c then _ else _) = _ => destruct c; [|discriminate] end.
+    injection H as <-. cbn [node_of qnode]. now rewrite (IH1 _ _ E1), (IH2 _ _ E2).
+Qed.
+
+Lemma num_bits_wf : forall z, forallb reg_free (num_bits z) = true /\ (2 <= length (num_bits z))%nat.
+Proof.
+  intros z. unfold num_bits. split.
+  - induction (int_to_twos_complement z); [reflexivity|]. cbn. exact IHl.
+  - rewrite map_length. apply int_to_twos_complement_spec.
+Qed.
+
+Lemma q_anode_wf : forall e prime a, q_anode var_id t prime e = Some a -> awf a = true.
+Proof.
+  induction e as [v|n|op e IH|o op e1 IH1 e2 IH2]; intros prime a H; cbn [q_anode] in H.
+  - destruct (py_int v) as [z|]; [|discriminate]. injection H as <-. cbn [awf].
+    destruct (num_bits_wf z) as [F L]. rewrite F.
+    destruct (length (num_bits z)); [lia|reflexivity].
+  - destruct (d_var_flatten var_id t n prime) as [[b|bits|f|p]|] eqn:E; try discriminate.
+    injection H as <-. cbn [awf]. destruct (var_bits_wf _ _ _ E) as [F L]. rewrite F.
+    destruct (length bits); [lia|reflexivity].
+  - destruct (String.eqb op "X" || String.eqb op "'")%bool; [|discriminate].
+    destruct (q_anode var_id t true e) as [a'|] eqn:E; [|discriminate]. injection H as <-.
+    cbn [awf]. eapply IH; eassumption.
+  - destruct (aop_of_string op); [|discriminate].
+    destruct (q_anode var_id t prime e1) as [a1|] eqn:E1; [|discriminate].
+    destruct (q_anode var_id t prime e2) as [a2|] eqn:E2; [|discriminate].
+    match type of H with (if ?c then _ else _) = _ => destruct c; [|discriminate] end.
+    injection H as <-. cbn [awf]. now rewrite (IH1 _ _ E1), (IH2 _ _ E2).
+Qed.
+
+(* the leaf hypothesis of the threading theorem holds by the translated
+   Num / Var .flatten, whatever ext_flatten and def_flatten are *)
+Lemma q_anode_leaves : forall e kw a, k_t kw = Some t -> k_defs kw = None ->
+  q_anode var_id t (py_truth (k_prime kw)) e = Some a -> lok a kw.
+Proof.
+  induction e as [v|n|op e IH|o op e1 IH1 e2 IH2]; intros kw a Ht Hd H; cbn [q_anode] in H.
+  - destruct (py_int v) as [z|] eqn:Z; [|discriminate]. injection H as <-.
+    now apply leaf_num.
+  - destruct (d_var_flatten var_id t n (py_truth (k_prime kw))) as [[b|bits|f|p]|] eqn:E;
+      try discriminate. injection H as <-.
+    apply (leaf_var _ _ _ _ _ n t bits kw Ht); [unfold nodef; now rewrite Hd|exact E].
+  - destruct (String.eqb op "X" || String.eqb op "'")%bool eqn:O; [|discriminate].
+    destruct (q_anode var_id t true e) as [a'|] eqn:E; [|discriminate]. injection H as <-.
+    cbn [leaves_ok]. split.
+    + apply orb_prop in O. destruct O as [O|O]; apply String.eqb_eq in O; auto.
+    + apply IH; [exact Ht|exact Hd|exact E].
+  - destruct (aop_of_string op) as [o'|] eqn:O; [|discriminate].
+    destruct (q_anode var_id t (py_truth (k_prime kw)) e1) as [a1|] eqn:E1; [|discriminate].
+    destruct (q_anode var_id t (py_truth (k_prime kw)) e2) as [a2|] eqn:E2; [|discriminate].
+    assert (o' = o) by (destruct o, o'; try discriminate; reflexivity). subst o'.
+    match type of H with (if ?c then _ else _) = _ => destruct c; [|discriminate] end.
+    injection H as <-. cbn [leaves_ok]. repeat split; auto.
+Qed.
+
+Lemma nonempty_of_len : forall A (l : list A), (1 <= length l)%nat -> l <> [].
+Proof. intros A [|a l] H; [cbn in H; lia|discriminate]. Qed.
+
+(* the value of the bits is the integer value of the expression *)
+Lemma q_anode_value : encodes -> forall e prime a v,
+  q_anode var_id t prime e = Some a -> qval env prime e = Some v ->
+  sval (aval vars a) = v.
+Proof.
+  intros Enc. induction e as [s|n|op e IH|o op e1 IH1 e2 IH2]; intros prime a v H V;
+    cbn [q_anode qval] in H, V.
+  - rewrite V in H. injection H as <-. cbn [aval]. unfold num_bits. rewrite map_map.
+    cbn [evalx]. rewrite map_id. apply int_to_twos_complement_spec.
+  - destruct (d_var_flatten var_id t n prime) as [[b|bits|f|p]|] eqn:E; try discriminate.
+    injection H as <-. injection V as <-. cbn [aval]. now apply Enc.
+  - destruct (String.eqb op "X" || String.eqb op "'")%bool; [|discriminate].
+    destruct (q_anode var_id t true e) as [a'|] eqn:E; [|discriminate]. injection H as <-.
+    cbn [aval]. eapply IH; eassumption.
+  - destruct (aop_of_string op); [|discriminate].
+    destruct (q_anode var_id t prime e1) as [a1|] eqn:E1; [|discriminate].
+    destruct (q_anode var_id t prime e2) as [a2|] eqn:E2; [|discriminate].
+    match type of H with (if ?c then _ else _) = _ => destruct c; [|discriminate] end.
+    injection H as <-.
+    destruct (qval env prime e1) as [x|] eqn:V1; [|discriminate].
+    destruct (qval env prime e2) as [y|] eqn:V2; [|discriminate].
+    pose proof (IH1 _ _ _ E1 V1) as S1. pose proof (IH2 _ _ _ E2 V2) as S2.
+    pose proof (nonempty_of_len _ _ (aval_nonempty vars a1 (q_anode_wf _ _ _ E1))) as N1.
+    pose proof (nonempty_of_len _ _ (aval_nonempty vars a2 (q_anode_wf _ _ _ E2))) as N2.
+    destruct o; cbn [sem_aop] in V; cbn [aval].
+    + injection V as <-. destruct (adder_spec _ _ true 1 N1 N2 ltac:(lia)) as [_ ->]. lia.
+    + injection V as <-. destruct (adder_spec _ _ false 1 N1 N2 ltac:(lia)) as [_ ->]. lia.
+    + injection V as <-. destruct (multiplier_spec _ _ N1 N2) as [_ ->]. lia.
+    + destruct (y =? 0) eqn:Z0; [discriminate|]. injection V as <-. apply Z.eqb_neq in Z0.
+      pose proof (divider_spec _ _ N1 N2 ltac:(lia)) as D.
+      destruct (restoring_divider (aval vars a1) (aval vars a2)). cbn [fst].
+      destruct D as (-> & _). now rewrite S1, S2.
+    + destruct (y =? 0) eqn:Z0; [discriminate|]. injection V as <-. apply Z.eqb_neq in Z0.
+      pose proof (divider_spec _ _ N1 N2 ltac:(lia)) as D.
+      destruct (restoring_divider (aval vars a1) (aval vars a2)). cbn [snd].
+      destruct D as (_ & -> & _). now rewrite S1, S2.
+Qed.
+
+Theorem translated_flatten_end_to_end : forall op l r la ra fuel kw res st vl vr,
+  k_t kw = Some t -> k_defs kw = None -> encodes ->
+  q_anode var_id t (py_truth (k_prime kw)) l = Some la ->
+  q_anode var_id t (py_truth (k_prime kw)) r = Some ra ->
+  qval env (py_truth (k_prime kw)) l = Some vl ->
+  qval env (py_truth (k_prime kw)) r = Some vr ->
+  flat fuel (PNode "Comparator" op [qnode l; qnode r]) None kw = Some (res, st) ->
+  exists o buf, cmp_of_string op = Some o /\ res = RBuf buf /\ st = None /\
+    buf_value vars buf = Some (sem_cmp o vl vr).
+Proof.
+  intros op l r la ra fuel kw res st vl vr Ht Hd Enc Al Ar Vl Vr H.
+  rewrite <- (q_anode_node _ _ _ Al), <- (q_anode_node _ _ _ Ar) in H.
+  destruct (translated_comparator_flatten_correct op la ra fuel kw res st
+              (q_anode_leaves _ _ _ Ht Hd Al) (q_anode_leaves _ _ _ Ht Hd Ar)
+              (q_anode_wf _ _ _ Al) (q_anode_wf _ _ _ Ar) H) as (o & buf & Ho & -> & -> & B).
+  exists o, buf. repeat split; auto.
+  now rewrite (q_anode_value Enc _ _ _ _ Al Vl), (q_anode_value Enc _ _ _ _ Ar Vr) in B.
+Qed.
+End FlattenCorrect.
